@@ -6,7 +6,7 @@
 (* with the model by PinITrace.                                                                *)
 EXTENDS PinI, Json
 VARIABLE hist
-GInit == IInit /\ hist = <<[ev |-> "reset", label |-> loaded]>>
+GInit == IInit /\ hist = <<[ev |-> "reset", label |-> CHOOSE l \in loaded : TRUE]>>
 GNext ==
     \/ /\ len < MaxLen
        /\ \/ \E x \in Txns : (L1(x) /\ hist' = Append(hist, [ev |-> "lookup", txn |-> x]))
